@@ -12,8 +12,9 @@ CONSTANTS Names, MaxLevel
 
 VARIABLES connected,   \* set of engines (pairs) with a live websocket
           registered,  \* engines with engine data
+          known,       \* engines that have registered at some time: they keep their id and may reconnect without registering
           last         \* <<action, args, accepted>>
-vars == <<connected, registered, last>>
+vars == <<connected, registered, known, last>>
 
 Id(p) == p
 
@@ -22,11 +23,13 @@ RegisterF(p) == LET ok == ~\E q \in connected : Id(q) = Id(p) IN
                  last |-> <<"Register", <<p[1], p[2]>>, ok>>]
 ConnectF(p) == [connected |-> connected \cup {p}, registered |-> registered, last |-> <<"Connect", <<p[1], p[2]>>, TRUE>>]
 DisconnectF(p) == [connected |-> connected \ {p}, registered |-> registered \ {p}, last |-> <<"Disconnect", <<p[1], p[2]>>, TRUE>>]
-Apply(n) == connected' = n.connected /\ registered' = n.registered /\ last' = n.last
+Apply(n) == /\ connected' = n.connected /\ registered' = n.registered /\ last' = n.last
+            /\ known' = IF n.last[1] = "Register" /\ n.last[3] THEN known \cup {<<n.last[2][1], n.last[2][2]>>} ELSE known
 
-Init == connected = {} /\ registered = {} /\ last = <<"Init", <<>>, TRUE>>
+Init == connected = {} /\ registered = {} /\ known = {} /\ last = <<"Init", <<>>, TRUE>>
 Next == \/ \E p \in Names \X Names : Apply(RegisterF(p))
-        \/ \E p \in registered \ connected : Apply(ConnectF(p))
+        \* (also after a dropped websocket, when the engine data is gone: connected but not registered)
+        \/ \E p \in known \ connected : Apply(ConnectF(p))
         \/ \E p \in connected : Apply(DisconnectF(p))
 Spec == Init /\ [][Next]_vars
 Bound == TLCGet("level") <= MaxLevel
